@@ -102,3 +102,19 @@ Proof. vm_compute. split; reflexivity. Qed.
 Definition w_bad : comp := CFanout [CProc 1 false (CProc 2 true (CFanout [CExp 3 false])); CExp 4 false].
 Example bad_not_ok : ok w_bad = false /\ panics (snd (run_graph w_bad [])) = [2].
 Proof. vm_compute. split; reflexivity. Qed.
+
+(* non-vacuity of model_passes_checker: a script with a cancel, writes by a declared and an undeclared writer and all
+   three calls satisfies both guards, and the model's observation of it passes the checker (computed) *)
+From Verif Require C06.Clauses C06.ModelObs.
+Definition w_script : list Harness.wlabel :=
+  [(0,(0,(0,0%Z))); (1,(0,(0,7%Z))); (4,(0,(0,0%Z))); (0,(0,(0,0%Z))); (5,(0,(0,0%Z))); (0,(0,(0,0%Z))); (3,(2,(0,1%Z)))].
+Example link_guards : List.length [true; false; false] <= Clauses.n_call_labels w_script /\ List.length [true; false; false] < 500.
+Proof. vm_compute. split; repeat constructor. Qed.
+Example link_computed :
+  Clauses.prop_ok (ModelObs.observe 0 [true; false; false] false [1; 2]%Z [[]; [5]; []]%N w_script) = true.
+Proof. vm_compute. reflexivity. Qed.
+(* the guard is real: for an interrupted delivery (fewer call labels than consumers) the model still reports the
+   complete error, so the aggregation clause is (rightly) not satisfied by the truncated observation *)
+Example link_guard_needed :
+  Clauses.prop_ok (ModelObs.observe 0 [false; false] false [1]%Z [[1]; [2]]%N [(0,(0,(0,0%Z)))]) = false.
+Proof. vm_compute. reflexivity. Qed.
